@@ -605,6 +605,13 @@ def gen_dtls(ch, spec):
                     "pt": ch.choice("wl", [96, 96, 0, 8, 13, 35, 63, 81, 90, 95, 111, 127]), "marker": ch.index("wl", 2),
                     "size": ch.choice("wl", [0, 1, 20, 200, 1000, 1150, 1228, 1300, 1400]),
                     "dt": ch.choice("wl", [0.0, 0.001, 0.02, 0.2])})
+    if p.corrupt == 0.0 and ch.chance("wl", 0.7):
+        # nothing is altered in this run: data messages may then also be handed over by several tasks at once
+        for _ in range(ch.choice("wl", [1, 2, 3])):
+            ops.insert(ch.index("wl", len(ops) + 1), {"dir": ch.choice("wl", ["A", "B"]), "kind": "burst",
+                                                      "count": ch.choice("wl", [2, 3, 5]),
+                                                      "size": ch.choice("wl", [1, 200, 1150, 1400]),
+                                                      "dt": ch.choice("wl", [0.0, 0.02, 0.2])})
     return cfg, ops
 
 
@@ -797,10 +804,40 @@ class DtlsWorld(MediaBase):
             if op["dt"]:
                 await asyncio.sleep(op["dt"])
             n = op["dir"]
+            if op["kind"] == "burst":
+                await self.send_burst(n, op)
+                continue
             await self.loop.create_task(self.send_one(n, op, seq), context=pair.ctx[n])
         await asyncio.sleep(3.0)
         self.final(states)
         self.link_faults(self.fabric.links)
+
+    async def send_burst(self, n, op):
+        """Several data messages handed to the transport by concurrent tasks (as RTCSctpTransport does from its timers,
+        its receive path and the application).  Only generated for runs whose network alters nothing, so every one of
+        them is due intact whatever order they reach the wire in."""
+        pair = self.pair
+        d = pair.dtls[n]
+
+        async def one(payload, item):
+            try:
+                await d._send_data(payload)
+                self.probes["sent_data"] += 1
+            except ConnectionError:
+                item["refused"] = True
+                self.probes["send_refused"] += 1
+            except Exception as exc:  # noqa
+                item["refused"] = True
+                self.violation("C04", "send-raised:" + exc_tag(exc), "side %s kind data (burst): %r" % (n, exc))
+        tasks = []
+        for _ in range(op["count"]):
+            self.counter += 1
+            payload = b"D%06d" % self.counter + bytes(((self.counter * 31 + i * 7) & 0xFF) for i in range(op["size"]))
+            item = {"kind": "data", "fate": "intact", "early": False, "key": ("data", payload)}
+            self.sent[n].append(item)
+            tasks.append(self.loop.create_task(one(payload, item), context=pair.ctx[n]))
+        await asyncio.gather(*tasks)
+        self.probes["concurrent_data_bursts"] += 1
 
     async def send_one(self, n, op, seq):
         async with self.send_lock[n]:
